@@ -42,8 +42,9 @@ def genIsCleanupReady (cleanup : List Nat) (flat : Nat → Bool) (idIn : Nat →
 -/
 
 /-- `<register>.register(node, worker)` on one of the four edge registers of the class of `self` (bridged copies
-share the register objects); `key` = (class of `node`, worker) -/
-abbrev RegM := StateT ClassRegs (Except String)
+share the register objects); `key` = (class of `node`, worker).  The exception layer is OUTSIDE the state: what was
+registered before a `raise` stays registered, as in Python -/
+abbrev RegM := ExceptT String (StateM ClassRegs)
 def registerDroppedSetup (key : Nat × Nat) : RegM Unit :=
   modify (fun r => { r with droppedSetup := regAdd r.droppedSetup key })
 def registerDroppedCleanup (key : Nat × Nat) : RegM Unit :=
@@ -82,7 +83,7 @@ def sortedByKey (key : Nat → Nat) (l : List Nat) : List Nat := stableSort (fun
 
 /-- `test_node._picked_by_<side>_nodes.register(self, worker)`: the register object belongs to the class of the picked
 node (bridged copies share it); `key` = (class of `self`, worker) -/
-abbrev PickM := StateT State (Except String)
+abbrev PickM := ExceptT String (StateM State)
 def registerPickedByCleanup (g : Graph) (p : Nat) (key : Nat × Nat) : PickM Unit :=
   modify (fun s => s.setCr (g.node p).cls (fun r => { r with pickedByCleanup := regAdd r.pickedByCleanup key }))
 def registerPickedBySetup (g : Graph) (p : Nat) (key : Nat × Nat) : PickM Unit :=
